@@ -375,7 +375,17 @@ func concurrent(seed int64, retain uint, G, per int) {
 		r.Violate("send.deadlock", attrs, map[string]interface{}{"history": sig, "goroutines": clip(mon.LibGoroutines("knx-go/knx."))}, "[%s] concurrent Sends did not all return", sig)
 		return
 	}
-	time.Sleep(2 * time.Millisecond) // resend goroutines
+	// resend goroutines: wait until the wire has been quiet for 20 ms (bounded)
+	{
+		last, quiet := s.Len(), time.Now()
+		dl := time.Now().Add(3 * time.Second)
+		for time.Since(quiet) < 20*time.Millisecond && time.Now().Before(dl) {
+			time.Sleep(time.Millisecond)
+			if n := s.Len(); n != last {
+				last, quiet = n, time.Now()
+			}
+		}
+	}
 	// probe
 	pr := make(chan error, 1)
 	go func() { pr <- rt.Send(gateway.Ind(9999999)) }()
